@@ -1,5 +1,6 @@
 """C01 — compiled code means what the program means: placement discipline of the statement-lifting transformation."""
 CANON = True
+STRICT = {"R-LIN-ANON", "R-LIN-VAR", "R-LIN-PATH", "R-EXPR-STORE", "R-REC-FWD"}
 
 import ast
 
@@ -148,6 +149,12 @@ def check(ctx, src):
 
     core.transfer(ctx, src, c04, {"COMP-GUARD", "COMP-TAGS", "COMP-ELSE"})
     core.transfer(ctx, src, c12, {"R-ID-FRESH"}, key_filter=lambda k: "compile_if" in k)
+    # no sub-form may lose its statements, value or context on any path (decided by the Result-flow rules of C11)
+    from . import c11
+
+    ctx.rule("R-LIN", "Result-flow rules shared with C11: no dropped Result, no value placed on a path that excludes the placement of its statements, no expression replaced while the operand's temporaries stay exposed, "
+             "no recursive call that loses a parameter")
+    core.transfer(ctx, src, c11, {"R-LIN-ANON", "R-LIN-VAR", "R-LIN-PATH", "R-EXPR-STORE", "R-REC-FWD"})
 
     # --- compile_assign -------------------------------------------------------------------------
     ca = comp.rm.func("compile_assign")
